@@ -88,6 +88,21 @@ CLAIMED["C09"] = dict(
     note=TRUST + " Sem/GoSem.v is a model of Go (slices immutable, no floats, one goroutine schedule); Sem/Src.v is the source-level meaning; both reproduce the recorded real-Go output of 63-66 corpus programs. This is validation per program, not a proof about all programs.",
 )
 
+CLAIMED["C12"] = dict(
+    technique="Coq proofs about models of the multi-line string scanner (every index in bounds, bump ends on a line end) and of build_tree (the tree's leaves are the tokens in order, nothing dropped or duplicated, for every event list); byte-for-byte differential correspondence of scanner results and of the leaf sequence replayed from the real parser's events, inside coqc; losslessness, range bounds and char-boundary checks on the real lexer/parser outputs as the failing-input search",
+    text="multiline_scanner_safe (for every byte sequence the scanner model never reads outside the input and its bump length ends at the end of input or on a line feed), tree_leaves_are_a_token_prefix and tree_is_lossless (for every event list and token list the leaves of the built tree are exactly tokens 0..m-1 in order, and all of them when the events advance over every non-trivia token) — no axioms. "
+         "Tied to lexer/src/lib.rs and parser/src/{parser,event}.rs by comparing the scanner model with the real lex_multiline_string callback on exhaustive byte strings over its alphabet, and by replaying the real parser's event streams through the model's build and comparing the leaves with the real rowan tree; independently every run checks on the real outputs that token and tree texts concatenate to the input, ranges are ordered and inside the text, and no boundary splits a UTF-8 character.",
+    design_ref="DESIGN.md §4 C12",
+    note=TRUST + " The logos-generated DFA for the other tokens is explored (exhaustive short strings, corpus mutations), not modelled; the parser's grammar functions are covered through their event streams only.",
+)
+CLAIMED["C04"] = dict(
+    category="exploration",
+    technique="Coq theorems for the panic sites that are modelled (scanner indexing, tree building; totality of every model function is by construction) re-checked on each run; the rest of 'never crashes or hangs' is explored: exhaustive short token strings, mutated corpus programs, deep nesting, multi-file projects through pipeline::compile under catch_unwind + watchdog and through the real command-line binary",
+    text="Crash- and hang-freedom of the whole Rust compiler is not a theorem here: only the multi-line scanner (no out-of-bounds read, for all inputs) and the tree builder (total, lossless) are proved. Everything else is exploration with the real code: every input must give success or at least one error diagnostic whose range lies in the text; no panic, signal, or missing answer within 8 s, including the CLI's rendering of diagnostics for multi-file projects and check/build/link on damaged inputs.",
+    design_ref="DESIGN.md §4 C04",
+    note=TRUST + " The claimed level is exploration with proved parts; polymorphic recursion diverging in mono is a known finding.",
+)
+
 NOT_YET = {}
 
 def main():
